@@ -179,8 +179,38 @@ def main(chk):
                    f'{"accepted" if got else "rejected"}; specification: {"accepted as one object" if case["accepted"] else "rejected (inconsistent aliasing)"}')
     return None
 
+  def replay_carry2(case):
+    cfg = case['cfg']
+    n, k = cfg['n'], cfg['k']
+    key = f"C08:scan-carry-nodes:n={n}:reverse={cfg['rev']}:k={k}:{cfg['nest']}"
+
+    class Acc(nnx.Module):
+      def __init__(self, v):
+        self.v = nnx.Param(jnp.asarray(v, jnp.int32))
+    mods = [Acc(100 * (i + 1)) for i in range(k)]
+    carry = tuple(mods) if cfg['nest'] == 'tuple' else (list(mods) if cfg['nest'] == 'list' else {f'm{i}': m for i, m in enumerate(mods)})
+    xs = jnp.arange(1, n + 1, dtype=jnp.int32)
+
+    def step(c, x):
+      seq = list(c.values()) if isinstance(c, dict) else list(c)
+      for i, m in enumerate(seq):
+        m.v.value = m.v.value + (i + 1) * x
+      return c
+    try:
+      out = nnx.scan(step, in_axes=(nnx.Carry, 0), out_axes=nnx.Carry, reverse=cfg['rev'])(carry, xs)
+    except Exception as e:
+      return key, f'raised {type(e).__name__}: {str(e)[:160]}'
+    got = [int(m.v.value) for m in mods]
+    if got != case['final']:
+      return key, (f'after nnx.scan with {k} modules in the Carry the caller\'s objects hold {got}, the Python loop leaves {case["final"]} '
+                   '(each object must receive its own final state)')
+    seq = list(out.values()) if isinstance(out, dict) else list(out)
+    if any(a is not b for a, b in zip(seq, mods)) and [int(m.v.value) for m in seq] != case['final']:
+      return key, f'the returned carry holds {[int(m.v.value) for m in seq]}, the Python loop {case["final"]}'
+    return None
+
   total = 0
-  for mode in ('vmap', 'scan', 'grad', 'alias'):
+  for mode in ('vmap', 'scan', 'grad', 'alias', 'carry2'):
     res = tlc.require_ok(tlc.run('NnxLoop', f'NnxLoop_{mode}.cfg', workers=1, timeout=900), f'NnxLoop {mode}')
     chk.add_tlc(res, f'NnxLoop {mode}')
     cases = res['exports']
@@ -188,7 +218,8 @@ def main(chk):
       import random
       cases = random.Random(chk.seed + len(mode)).sample(cases, 140 if mode == 'scan' else 80)
     for case in cases:
-      r = replay_loop(case, mode) if mode in ('vmap', 'scan') else (replay_grad(case) if mode == 'grad' else replay_alias(case))
+      r = replay_loop(case, mode) if mode in ('vmap', 'scan') else (replay_grad(case) if mode == 'grad' else
+                                                                       (replay_carry2(case) if mode == 'carry2' else replay_alias(case)))
       total += 1
       chk.count((mode, str(case['cfg'])))
       if r:
